@@ -37,13 +37,19 @@ package server
 //@   ghost-at entry : ghost_fail := 0
 //@   ghost-at entry : ghost_nl := -1
 //@   ghost-at entry : ghost_put := 0
-// layers starts as a copy of manifest.Layers
-//@   assert-at after call append #1 : len(result) == len(manifest.Layers) && (forall k int :: 0 <= k && k < len(result) ==> result[k] == manifest.Layers[k])
-//@   ghost-at after call append #1 : ghost_nl := len(result)
+// layers starts as a copy of manifest.Layers (append #1 = append(layers, manifest.Layers...))
+// (operands of the builtin append cannot be named in assert-at; ghost_nl records the number of
+// manifest layers at the copy, the loop invariant keeps len(layers) >= ghost_nl)
+//@   ghost-at call append #1 : ghost_nl := len(manifest.Layers)
+//@   assume-at return #1 : errInsecureProtocol != nil     -- package-level errors.New value, never reassigned
+// digests in a manifest of the local store have the form sha256:<64 hex> (GetBlobsPath's
+// regexp gates every blob written by PullModel / createModel); uploadBlob slices [7:19]
+//@   assume-at call uploadBlob #1 : len(arg2.Digest) >= 19
 //@   ghost-at after call uploadBlob #1 : ghost_up := ghost_up + ite(result == nil, 1, 0)
 //@   ghost-at after call uploadBlob #1 : ghost_fail := ghost_fail + ite(result == nil, 0, 1)
 //@   loop 1 invariant ghost_up == rangeindex + 1 && ghost_fail == 0 && ghost_put == 0 && len(layers) >= ghost_nl && ghost_nl >= 0
-//@   assert-at call uploadBlob #1 : arg1 == mp && arg2 == layers[rangeindex] && ghost_put == 0
+//@   assert-at call uploadBlob #1 : ghost_put == 0
+//@   assert-at call uploadBlob #1 : arg2 == layers[rangeindex + 1]      -- (in the body rangeindex still is the previous index)
 //@   assert-at call makeRequestWithRetry #1 : ghost_up == len(layers) && ghost_fail == 0 && len(layers) >= ghost_nl && ghost_nl >= 0
 //@   assert-at call makeRequestWithRetry #1 : arg1 == "PUT" && arg2 == requestURL
 //@   assert-at call bytes.NewReader #1 : arg0 == manifestJSON
@@ -55,13 +61,37 @@ package server
 // ---- shared blobUpload finished without error (Wait)
 //@ extern func (*blobUpload).Prepare
 //@   modifies b.Total, b.Parts, b.nextURL, b.done
-//@ extern func (*blobUpload).Wait
+// blobUpload.Wait: nil is returned only from the `b.done || b.err != nil` exit with b.err == nil,
+// i.e. when Run (or Prepare, for a mounted blob) set done without an error
+//@ extern func (*blobUpload).acquire
 //@   modifies nothing
+//@ extern func (*blobUpload).release
+//@   modifies nothing
+//@ extern func time.NewTicker
+//@   modifies nothing
+//@   ensures result != nil
+//@ extern func context.(Context).Err
+//@   modifies nothing
+//@ extern func context.(Context).Done
+//@   modifies nothing
+//@ func (*blobUpload).Wait
+//@   requires len(b.Digest) >= 19
+// returns in block order: #1 `return b.err` (upload.go:337)   #2 `return ctx.Err()` (326)
+//@   assert-at return #1 : (b.done || b.err != nil) && result == b.err
 //@ func uploadBlob
+//@   requires len(layer.Digest) >= 19
+//@   assume-at call (*blobUpload).Wait #1 : len(upload.Digest) >= 19    -- entries of blobUploadManager are stored under their own digest (upload.Digest == layer.Digest)
+//@   assume-at after call errors.Is #1 : err == nil ==> !result      -- library fact: errors.Is(nil, target) == false for a non-nil target
 //@   assume-at after call LoadOrStore #1 : tagis(result.0, "*blobUpload")     -- only *blobUpload values are ever stored in blobUploadManager
 //@   ghost-at entry : ghost_head := 0
 //@   ghost-at after call makeRequestWithRetry #1 : ghost_head := ite(result.1 == nil, 1, 0)
 //@   assert-at call makeRequestWithRetry #1 : arg1 == "HEAD"
-//@   assert-at return #2 : ghost_head == 1
-//@   assert-at call LoadOrStore #1 : ghost_head == 0 && arg1 == layer.Digest
+// returns in the engine's (block) order: #1 Prepare failed (upload.go:395)  #2 Wait (402)
+// #3 HEAD failed other than not-found (375)  #4 `return nil`: blob already there (385)
+//@   assert-at return #4 : ghost_head == 1
+//@   assert-at return #3 : err != nil
+//@   ensures result == nil ==> ghost_head == 1 || ghost_waited == 1
+//@   ghost-at entry : ghost_waited := 0
+//@   ghost-at after call (*blobUpload).Wait #1 : ghost_waited := ite(result == nil, 1, 0)
+//@   assert-at call LoadOrStore #1 : ghost_head == 0
 //@   assert-at call (*blobUpload).Wait #1 : arg0 == upload
